@@ -68,6 +68,8 @@ M = [
     ('C12', 'mps-bound-token-unknown', 'R12.1', 'src/soplex/spxlpbase_real.hpp',
      "            MPSwriteRecord(p_output, \"UP\", \"BOUND\", getColName(*this, i, p_cnames, name1), upper(i));", "            MPSwriteRecord(p_output, \"XX\", \"BOUND\", getColName(*this, i, p_cnames, name1), upper(i));"),
     ('C17', 'flag-not-copied', 'R17.1', 'src/soplex.hpp', "      _hasBasis = rhs._hasBasis;\n", ""),
+    ('C17', 'basis-backpointer-not-rebound', 'R17.6', 'src/soplex/spxsolver.hpp', "         SPxBasisBase<R>::theLP = this;\n\n         assert(!freePricer", "         assert(!freePricer"),
+    ('C17', 'guard-reads-destination', 'R17.5', 'src/soplex/slufactor.hpp', "   if(!old.l.rval.empty())", "   if(!this->l.rval.empty())"),
     ('C18', 'mutable-global-counter', 'R18.1', 'src/soplex/spxout.cpp',
      "namespace soplex\n{\n", "namespace soplex\n{\nstatic int spxout_instances = 0;\nint countSPxOutInstances() { return ++spxout_instances; }\n"),
     ('C19', 'shift-discarded', 'R19.2', 'src/soplex/svsetbase.h',
